@@ -147,6 +147,7 @@ type Exec struct {
 	// Scheduler state reports received through cff.SchedulerEmitter.
 	FirstBadState string
 	LastStateExit atomic.Int64          // stamp taken when the latest EmitScheduler call returned
+	CensusSched   atomic.Int64          // goroutines in scheduler code while the limit was saturated (wide scenarios)
 	Limit         int                   // the directive's concurrency limit (set by the runner)
 	MaxJobs       int                   // upper bound on the jobs the directive can submit (set by the runner)
 	startCh       map[int]chan struct{} // closed when the function is first entered
